@@ -63,6 +63,7 @@ var goNames = []string{
 	"arr3", "arr0", "struct", "pstruct", "pint", "nilptr", "nilslice", "niltyped", "nilmap", "nilimap", "nilfunc", "nilchan",
 	"chan", "func", "err", "time", "nested", "mapmap", "badutf8", "myslice", "mymap",
 	"mapint", "mapbool", "mapfloat", "maparr", "mapmystr", "strs3", "month",
+	"mapnan", "mapinan",
 }
 
 // goValue returns the Go value described by v. Values with identity (pointers,
@@ -243,6 +244,11 @@ func goPool(v V) interface{} {
 		return map[bool]int64{true: i, false: 0}
 	case "mapfloat":
 		return map[float64]string{0.5: "a", float64(int32(i)): v.S, 1e300: "c"}
+	case "mapnan":
+		// NaN keys never look themselves up: two of them are two entries
+		return map[float64]string{math.NaN(): "a", math.NaN(): "b", 0.5: v.S}
+	case "mapinan":
+		return map[interface{}]interface{}{math.NaN(): i, "k": v.S, math.NaN(): nil}
 	case "maparr":
 		return map[[2]int64]string{{i, 0}: "a", {0, i}: v.S, {1, 1}: "c"}
 	case "mapmystr":
